@@ -915,110 +915,146 @@ impl<'a, R: 'a + Read> Read for CompressionLayerFailSafeReader<'a, R> {
                     .into());
                 }
 
-                if read_offset == cache_filled_offset
-                    && cache_filled_offset == FAIL_SAFE_BUFFER_SIZE
-                {
-                    // Cache is full and there is no more data to read from
-                    // -> cache must be reset
-                    cache.fill(0);
-                    cache_filled_offset = 0;
-                    read_offset = 0;
-                }
+                // Loop until some bytes are decompressed, or until the end (or
+                // a failure) of the source is reached: returning `Ok(0)` while
+                // data can still be obtained would be taken as the end of the
+                // stream by the caller
+                let ret: io::Result<usize>;
+                loop {
+                    if read_offset == cache_filled_offset
+                        && cache_filled_offset == FAIL_SAFE_BUFFER_SIZE
+                    {
+                        // Cache is full and there is no more data to read from
+                        // -> cache must be reset
+                        cache.fill(0);
+                        cache_filled_offset = 0;
+                        read_offset = 0;
+                    }
 
-                // Try to fill the cache from the inner source
-                match inner.read(&mut cache[cache_filled_offset..]) {
-                    Ok(read) => {
-                        if read == 0 && read_offset == cache_filled_offset {
-                            // No more data from inner and the cache has been fully read
-                            // -> return either an error or Ok(0)
-                            if uncompressed_read > 0 {
-                                // Inside a stream and no more data available
-                                return Err(io::Error::new(
-                                    io::ErrorKind::UnexpectedEof,
-                                    "No more data from the inner layer",
-                                ));
+                    // Try to fill the cache from the inner source
+                    let mut read_from_inner = 0;
+                    match inner.read(&mut cache[cache_filled_offset..]) {
+                        Ok(read) => {
+                            read_from_inner = read;
+                            cache_filled_offset += read;
+                        }
+                        Err(error) => {
+                            if read_offset == cache_filled_offset {
+                                // No more data in the cache
+                                ret = Err(error);
+                                break;
                             }
-                            // No more data available but not in a stream
-                            return Ok(0);
+                            // There is still data in the cache to read
+                            // Will fail and return the error on a next .read()
                         }
-                        cache_filled_offset += read;
                     }
-                    error => {
-                        if read_offset == cache_filled_offset {
-                            // No more data in the cache
-                            return error;
+
+                    // Number of byte available in the source
+                    let mut available_in = cache_filled_offset - read_offset;
+                    // IN: Offset in the source
+                    // OUT: Offset in the source after the decompression pass
+                    let mut input_offset = 0;
+                    // Available spaces in the output
+                    let mut available_out = std::cmp::min(
+                        buf.len(),
+                        (UNCOMPRESSED_DATA_SIZE - uncompressed_read) as usize,
+                    );
+                    let no_room_for_output = available_out == 0;
+                    // IN: Offset in the output
+                    // OUT: number of bytes written in the output
+                    let mut output_offset = 0;
+                    // OUT: total number of byte written for the current stream (cumulative)
+                    let mut written = 0;
+
+                    // The decompressor is called even without any new input: it
+                    // may still hold output that did not fit in a previous `buf`
+                    match brotli::BrotliDecompressStream(
+                        &mut available_in,
+                        &mut input_offset,
+                        &cache[read_offset..cache_filled_offset],
+                        &mut available_out,
+                        &mut output_offset,
+                        buf,
+                        &mut written,
+                        &mut state,
+                    ) {
+                        brotli::BrotliResult::ResultSuccess => {
+                            // End of stream reached
+
+                            // Rewind the cache to the actual start of the new block
+                            // input_offset \in [0; cache_filled_offset - read_offset[
+                            read_offset += input_offset;
+
+                            // Reset others
+                            state = Box::new(BrotliState::new(
+                                StandardAlloc::default(),
+                                StandardAlloc::default(),
+                                StandardAlloc::default(),
+                            ));
+                            uncompressed_read = 0;
+
+                            if output_offset > 0 || buf.is_empty() {
+                                ret = Ok(output_offset);
+                                break;
+                            }
+                            // Nothing returned for this call: go on with the
+                            // next stream, if any
+                            continue;
                         }
-                        // There is still data in the cache to read
-                        // Will fail and return the error on the next .read()
+                        brotli::BrotliResult::NeedsMoreInput
+                        | brotli::BrotliResult::NeedsMoreOutput => {
+                            // Bytes may have been read and produced
+                            read_offset += input_offset;
+                            let Ok(produced) = u32::try_from(output_offset) else {
+                                ret = Err(io::Error::new(
+                                    io::ErrorKind::InvalidData,
+                                    "Integer conversion failed",
+                                ));
+                                break;
+                            };
+                            uncompressed_read += produced;
+
+                            if output_offset > 0 || buf.is_empty() {
+                                ret = Ok(output_offset);
+                                break;
+                            }
+                            if no_room_for_output {
+                                // More than `UNCOMPRESSED_DATA_SIZE` bytes in a stream
+                                ret = Err(io::Error::new(
+                                    io::ErrorKind::InvalidData,
+                                    "Too much data in a compressed block",
+                                ));
+                                break;
+                            }
+                        }
+                        brotli::BrotliResult::ResultFailure => {
+                            ret = Err(io::Error::new(
+                                io::ErrorKind::InvalidData,
+                                "Invalid Data while decompressing",
+                            ));
+                            break;
+                        }
                     }
+
+                    // Nothing has been produced
+                    if read_from_inner == 0 && input_offset == 0 {
+                        // No more data from inner, and the decompressor made no
+                        // progress with what remains in the cache
+                        // -> return either an error or Ok(0)
+                        if uncompressed_read > 0 {
+                            // Inside a stream and no more data available
+                            ret = Err(io::Error::new(
+                                io::ErrorKind::UnexpectedEof,
+                                "No more data from the inner layer",
+                            ));
+                            break;
+                        }
+                        // No more data available but not in a stream
+                        ret = Ok(0);
+                        break;
+                    }
+                    // Otherwise, try again with more input
                 }
-
-                // Number of byte available in the source
-                let mut available_in = cache_filled_offset - read_offset;
-                // IN: Offset in the source
-                // OUT: Offset in the source after the decompression pass
-                let mut input_offset = 0;
-                // Available spaces in the output
-                let mut available_out = std::cmp::min(
-                    buf.len(),
-                    (UNCOMPRESSED_DATA_SIZE - uncompressed_read) as usize,
-                );
-                // IN: Offset in the output
-                // OUT: number of bytes written in the output
-                let mut output_offset = 0;
-                // OUT: total number of byte written for the current stream (cumulative)
-                let mut written = 0;
-
-                let ret = match brotli::BrotliDecompressStream(
-                    &mut available_in,
-                    &mut input_offset,
-                    &cache[read_offset..cache_filled_offset],
-                    &mut available_out,
-                    &mut output_offset,
-                    buf,
-                    &mut written,
-                    &mut state,
-                ) {
-                    brotli::BrotliResult::ResultSuccess => {
-                        // End of stream reached
-
-                        // Rewind the cache to the actual start of the new block
-                        // input_offset \in [0; cache_filled_offset - read_offset[
-                        read_offset += input_offset;
-
-                        // Reset others
-                        state = Box::new(BrotliState::new(
-                            StandardAlloc::default(),
-                            StandardAlloc::default(),
-                            StandardAlloc::default(),
-                        ));
-                        uncompressed_read = 0;
-
-                        Ok(output_offset)
-                    }
-                    brotli::BrotliResult::NeedsMoreInput => {
-                        // Bytes may have been read and produced
-                        read_offset += input_offset;
-                        uncompressed_read += u32::try_from(output_offset).map_err(|_| {
-                            io::Error::new(io::ErrorKind::InvalidData, "Integer conversion failed")
-                        })?;
-
-                        Ok(output_offset)
-                    }
-                    brotli::BrotliResult::NeedsMoreOutput => {
-                        // Bytes may have been read and produced
-                        read_offset += input_offset;
-                        uncompressed_read += u32::try_from(output_offset).map_err(|_| {
-                            io::Error::new(io::ErrorKind::InvalidData, "Integer conversion failed")
-                        })?;
-
-                        Ok(output_offset)
-                    }
-                    brotli::BrotliResult::ResultFailure => Err(io::Error::new(
-                        io::ErrorKind::InvalidData,
-                        "Invalid Data while decompressing",
-                    )),
-                };
 
                 self.state = CompressionLayerFailSafeReaderState::InData {
                     cache,
